@@ -120,7 +120,10 @@ class ZFn:
             if o["val"] in ("const false", "false"): return {False}
             return {"Z", "NZ"}
         key = s.canon(o["p"])
-        if key in V: return {V[key]}
+        if key in V:
+            if s.place_ty(o["p"]) == "bool":
+                return {V[key] == "NZ"}      # a tracked flag: stored as 0 / 1
+            return {V[key]}
         # single-def temp: evaluate its definition
         p = o["p"]
         if p["proj"] and p["proj"][0]["k"] == "deref" and key[0] == "L":
@@ -262,6 +265,8 @@ class ZFn:
         IN = [set() for _ in b["blocks"]]; IN[0] = set(init); work = [0]
         def assign(V, key, vals):
             out = []
+            if vals & {True, False} and not vals & {"Z", "NZ"}:
+                vals = {"NZ" if x else "Z" for x in vals & {True, False}}      # a tracked bool flag
             for v in (vals & {"Z", "NZ"}) or {"Z", "NZ"}:
                 W = dict(V); W[key] = v; out.append(W)
             return out
@@ -390,6 +395,27 @@ def analyse(f, ARR, body, summaries, mode="sites", ret_pairs=None, ctor_sinks=No
         elif "impl TooDeeOps" in b["locals"][i] or "impl ops::TooDeeOps" in b["locals"][i] or re.search(r"&'\S+ (mut )?Self", b["locals"][i]) or re.match(r"^&('\S+ )?(mut )?[A-Z]\w*/#\d+$", b["locals"][i]):
             g1, g2 = ("G", i, "num_rows"), ("G", i, "num_cols")
             add(g1); add(g2); entry_pairs.append((g1, g2))
+
+    # a bool local assigned on several branches (`a == 0 || b == 0`) that steers at least two switches: kept in the valuation
+    # (as 0 / 1) so that both decisions agree
+    bdefs, bsw = {}, {}
+    for bl in b["blocks"]:
+        if bl["cleanup"]:
+            continue
+        for st in bl["stmts"]:
+            if st["k"] == "assign" and not st["p"]["proj"] and b["locals"][st["p"]["local"]] == "bool":
+                bdefs[st["p"]["local"]] = bdefs.get(st["p"]["local"], 0) + 1
+        t = bl["term"]
+        if t and t["k"] == "switch" and t["discr"]["k"] in ("copy", "move") and not t["discr"]["p"]["proj"]:
+            l_ = t["discr"]["p"]["local"]
+            for _ in range(2):
+                ds_ = Z.defs.get(l_, [])
+                if len(ds_) == 1 and ds_[0][0] == "rv" and ds_[0][1]["k"] == "use" and ds_[0][1]["o"]["k"] in ("copy", "move") and not ds_[0][1]["o"]["p"]["proj"]:
+                    l_ = ds_[0][1]["o"]["p"]["local"]
+            bsw[l_] = bsw.get(l_, 0) + 1
+    for l_, nd in sorted(bdefs.items()):
+        if nd >= 2 and bsw.get(l_, 0) >= 2 and b["locals"][l_] == "bool" and len([k for k in tracked if k[0] == "L" and b["locals"][k[1]] == "bool"]) < 2:
+            add(("L", l_))
 
     uses = {}
 
